@@ -822,7 +822,13 @@ where
                     Ok(Some(Ev::Scalar { value, style, .. }))
                         if scalar_is_nullish(value, style) =>
                     {
-                        let _ = self.src.next();
+                        // A null-like document is skipped; an error met while consuming it
+                        // (e.g. a deferred reader error) must not be thrown away.
+                        if let Err(e) = self.src.next() {
+                            self.finished = true;
+                            let _ = self.src.finish();
+                            return Some(Err(e));
+                        }
                         continue;
                     }
                     Ok(Some(_)) => {
@@ -1196,7 +1202,13 @@ where
                     Ok(Some(Ev::Scalar { value, style, .. }))
                         if scalar_is_nullish(value, style) =>
                     {
-                        let _ = self.src.next();
+                        // A null-like document is skipped; an error met while consuming it
+                        // (e.g. a deferred reader error) must not be thrown away.
+                        if let Err(e) = self.src.next() {
+                            self.finished = true;
+                            let _ = self.src.finish();
+                            return Some(Err(e));
+                        }
                         continue;
                     }
                     Ok(Some(_)) => {
@@ -1924,7 +1936,13 @@ where
                     Ok(Some(Ev::Scalar { value, style, .. }))
                         if scalar_is_nullish(value, style) =>
                     {
-                        let _ = self.src.next();
+                        // A null-like document is skipped; an error met while consuming it
+                        // (e.g. a deferred reader error) must not be thrown away.
+                        if let Err(e) = self.src.next() {
+                            self.finished = true;
+                            let _ = self.src.finish();
+                            return Some(Err(e));
+                        }
                         continue;
                     }
                     Ok(Some(_)) => {
